@@ -541,7 +541,10 @@ class Interp:
             raise AssertionError(op)
         if t[0] == "float":
             r = {"+": a + b, "-": a - b, "*": a * b}[op]
-            return f32round(r) if t[1] == 32 else r
+            r = f32round(r) if t[1] == 32 else r
+            if r != r or r in (float("inf"), float("-inf")):
+                raise Undefined("float overflow / NaN (outside the fragment)")
+            return r
         bits, signed = self.int_info(t)
         if op == "+":
             return wrap(bits, signed, a + b)
@@ -601,7 +604,10 @@ class Interp:
             return v
         if d[0] == "float":
             if s[0] == "float":
-                return f32round(v) if d[1] == 32 else v
+                r = f32round(v) if d[1] == 32 else v
+                if r in (float("inf"), float("-inf")):
+                    raise Undefined("float overflow")
+                return r
             if s[0] == "int":
                 if d[1] == 32 and INT_INFO[s[1]][0] > 32:
                     raise Undefined("wide int -> f32 (double rounding in the model)")
